@@ -83,6 +83,14 @@ func runC20(t *testing.T, tape *sim.Tape, tier string) *Outcome {
 		} else if withPw && tape.Draw(5, "auth") == 0 {
 			g.Only = []string{"AUTH"}
 		}
+		if g.Only == nil && tape.Draw(24, "cfgtimeout") == 23 {
+			// well-known server parameters that govern time (an implementation may or may not act on them); whenever
+			// the server then waits for input under a deadline the simulated clock moves on to it
+			a := [][]string{{"CONFIG", "SET", "timeout", "1"}, {"CONFIG", "SET", "timeout", "30"}, {"CONFIG", "SET", "tcp-keepalive", "1"}, {"CONFIG", "SET", "maxclients", "1"}}[tape.Draw(4, "cfgtimeoutkind")]
+			reqs = append(reqs, &wl.Req{Idx: i, Name: "CONFIG", Args: a, Bytes: resp.Cmd(a...), Class: "valid", Mode: wl.System, SelectDB: -1})
+			o.stat("time_parameters_set", 1)
+			continue
+		}
 		if g.Only == nil && tape.Draw(12, "oddvalue") == 11 {
 			// a value that is not a command array (empty/null/nested array, null or non-bulk command name, non-array value)
 			v := oddArrays[tape.Draw(len(oddArrays), "odd")]
